@@ -45,12 +45,25 @@ def penalty(x):
     return 20.0 * max(0.0, float(x[0]) - 0.25) ** 2
 
 
-def _termination(kind):
+def _termination(kind, tol=None):
+    """'vtr'/'cog'/'ncog' look at the best energy (history) only; 'crt'/'spread' look at the member's whole current
+    population (simplex) and its energies; 'vtrcog', 'or', 'and' are the documented compounds of these"""
     from mystic import termination as T
+    tol = 1e-3 if tol is None else tol
     if kind == 'vtr':
         return T.VTR(0.5)
     if kind == 'cog':
         return T.ChangeOverGeneration(1e-3, 3)
+    if kind == 'crt':
+        return T.CandidateRelativeTolerance(tol, tol)
+    if kind == 'spread':
+        return T.PopulationSpread(tol)
+    if kind == 'vtrcog':
+        return T.VTRChangeOverGeneration(tol, tol * 1e-2, 5)
+    if kind == 'or':
+        return T.Or(T.VTR(tol * 1e-3), T.CandidateRelativeTolerance(tol, tol))
+    if kind == 'and':
+        return T.And(T.ChangeOverGeneration(tol, 3), T.PopulationSpread(tol * 10))
     return T.NormalizedChangeOverGeneration(1e-4, 4)
 
 
@@ -292,7 +305,8 @@ def work_de2(spec):
 
 # ----------------------------------------------------------------------------- (iii) ensembles
 def run_ens(spec, mode, mapname):
-    """returns (bestSolution, bestEnergy, total evaluations)"""
+    """returns (bestSolution, bestEnergy, total evaluations, per-member results, best member's recorded energies)"""
+    from mystic.monitors import Monitor
     from mystic.solvers import LatticeSolver, BuckshotSolver, NelderMeadSimplexSolver, PowellDirectionalSolver
     seed_all(spec['seed'])
     n = spec['ndim']
@@ -302,23 +316,33 @@ def run_ens(spec, mode, mapname):
         s = BuckshotSolver(n, npts=spec['npts'])
     klass = NelderMeadSimplexSolver if spec['nested'] == 'NM' else PowellDirectionalSolver
     cost = Cost(spec['cost'])
+    tol = spec.get('tol')
     if spec['instance']:       # a configured solver instance ('bare': its objective is left to the ensemble)
         inner = klass(n)
         inner.SetEvaluationLimits(generations=spec['maxgen'])
-        inner.SetTermination(_termination(spec['term']))
+        inner.SetTermination(_termination(spec['term'], tol))
         if spec['instance'] == 'with-objective':
             inner.SetObjective(cost)
         s.SetNestedSolver(inner)
     else:
         s.SetNestedSolver(klass)
     if spec['bounds']:
-        s.SetStrictRanges([LO] * n, [HI] * n)
+        kw = {}
+        if spec.get('tight') is not None:
+            kw['tight'] = spec['tight']
+        if spec.get('clip') is not None:
+            kw['clip'] = spec['clip']
+        s.SetStrictRanges([LO] * n, [HI] * n, **kw)
     if spec['cons']:
         s.SetConstraints(clamp)
     if spec['pen']:
         s.SetPenalty(penalty)
+    if spec.get('genmon'):
+        s.SetGenerationMonitor(Monitor())
+    if spec.get('evalmon'):
+        s.SetEvaluationMonitor(Monitor())
     s.SetEvaluationLimits(generations=spec['maxgen'])
-    s.SetTermination(_termination(spec['term']))
+    s.SetTermination(_termination(spec['term'], tol))
     if mapname != 'builtin':
         s.SetMapper(MAPS[mapname])
     if mode == 'solve':
@@ -333,7 +357,10 @@ def run_ens(spec, mode, mapname):
             guard += 1
         if guard >= 4000:
             return ('no termination after 4000 steps',)
-    return (tuple(_r(v) for v in s.bestSolution), _r(s.bestEnergy), int(s._total_evals))
+    members = tuple((tuple(_r(v) for v in m.bestSolution), _r(m.bestEnergy), int(m.generations), int(m.evaluations))
+                    for m in s._allSolvers)
+    path = tuple(_r(e) for e in s._stepmon._y) if spec.get('genmon') else ()
+    return (tuple(_r(v) for v in s.bestSolution), _r(s.bestEnergy), int(s._total_evals), members, path)
 
 
 def gen_ens_specs(seed, n):
@@ -349,6 +376,30 @@ def gen_ens_specs(seed, n):
     return out
 
 
+POP_TERMS = ['crt', 'spread', 'or', 'and', 'crt', 'spread', 'vtrcog', 'ncog']
+
+
+def gen_ens2_specs(seed, n):
+    """ensembles whose members stop on a condition over their whole population (simplex), run long enough for the
+    members to stop at different ensemble steps; all range modes; with/without generation and evaluation monitors;
+    the step-wise modes are additionally run under one of the maps"""
+    rng = random.Random(seed + 303)
+    out = []
+    for _ in range(n):
+        ndim = rng.choice([1, 2, 2, 3])
+        nested = rng.choice(['NM', 'NM', 'NM', 'Powell'])
+        term = rng.choice(POP_TERMS if nested == 'NM' else ['spread', 'and', 'vtrcog', 'cog'])   # crt needs nPop > 1
+        tight, clip = rng.choice(RANGE_MODES)
+        out.append(dict(kind='ens2', ens=rng.choice(['lattice', 'buckshot']), nested=nested, ndim=ndim,
+                        nbins=[rng.choice([1, 2, 3]) for _ in range(ndim)], npts=rng.choice([2, 3, 5]),
+                        cost=rng.choice(sorted(COSTS)), bounds=rng.random() < 0.8, tight=tight, clip=clip,
+                        cons=rng.random() < 0.2, pen=rng.random() < 0.2, instance=False,
+                        genmon=rng.random() < 0.5, evalmon=rng.random() < 0.3, maxgen=rng.choice([40, 120, 300]),
+                        term=term, tol=rng.choice([1e-2, 1e-3, 1e-4]), stepmap=rng.choice(QUICK_MAPS),
+                        seed=rng.randrange(10 ** 6)))
+    return out
+
+
 def safe(fn, spec, *a):
     """an exception of mystic is compared like any other outcome; None = process map could not pickle (not explored)"""
     try:
@@ -357,6 +408,24 @@ def safe(fn, spec, *a):
         if a[-1] == 'processes' and ('pickl' in str(e).lower() or 'pickl' in type(e).__name__.lower()):
             return None
         return [('EXC', type(e).__name__, str(e)[:100])]
+
+
+RESULT_PARTS = ['bestSolution', 'bestEnergy', 'total evaluations', 'per-member (solution, energy, generations, '
+                'evaluations)', "best member's recorded energies"]
+
+
+def ens_diff(ref, r):
+    """(clause suffix, text) of the first observable in which two ensemble outcomes differ"""
+    if len(ref) != len(RESULT_PARTS) or len(r) != len(RESULT_PARTS):
+        return '', '%s vs %s' % (str(ref)[:200], str(r)[:200])
+    for k, (nm, x, y) in enumerate(zip(RESULT_PARTS, ref, r)):
+        if x != y:
+            if k == 3 and len(x) == len(y):
+                i = [a != b for a, b in zip(x, y)].index(True)
+                return '/member-results', 'member %d: %s vs %s' % (i, x[i], y[i])
+            return ('' if k < 3 else '/member-results' if k == 3 else '/best-trajectory',
+                    '%s: %s vs %s' % (nm, str(x)[:200], str(y)[:200]))
+    return '', 'equal'
 
 
 def check_ens(spec, maps, res, extra=None):
@@ -368,15 +437,18 @@ def check_ens(spec, maps, res, extra=None):
     res.case('ens:solve:builtin:' + tag, nontrivial=ref[0] != 'EXC')
     if ref[0] == 'EXC' and extra is not None:
         extra.setdefault('aborted', []).append(str(ref))
-    for mode in ('step', 'solve-step'):
-        r = go(mode, 'builtin')
-        res.case('ens:%s:builtin:%s' % (mode, tag))
+    stepmaps = ['builtin'] + [m for m in [spec.get('stepmap')] if m in maps]
+    for mode, m in itertools.product(('step', 'solve-step'), stepmaps):
+        r = go(mode, m)
+        res.case('ens:%s:%s:%s' % (mode, m, tag))
         if r != ref:
             sub = ''
             if spec['instance'] == 'bare' and r[0] == 'EXC' and 'NoneType' in r[2]:
                 sub = '#configured-nested-instance-without-objective'
-            res.violation(P + 'ensemble/step-wise-differs-from-run-to-completion' + sub,
-                          '%s: Solve %s vs %s %s' % (tag, ref, mode, r), jsonable(dict(spec, mode=mode, map='builtin')))
+            clause, txt = ens_diff(ref, r)
+            res.violation(P + 'ensemble/step-wise-differs-from-run-to-completion' + clause + sub,
+                          '%s: Solve[builtin] vs %s[%s]: %s' % (tag, mode, m, txt),
+                          jsonable(dict(spec, mode=mode, map=m)))
     for m in maps:
         r = go('solve', m)
         if r is None:
@@ -385,8 +457,9 @@ def check_ens(spec, maps, res, extra=None):
             continue
         res.case('ens:solve:%s:%s' % (m, tag))
         if r != ref:
-            res.violation(P + 'ensemble/result-depends-on-map',
-                          '%s: builtin %s vs %s %s' % (tag, ref, m, r), jsonable(dict(spec, mode='solve', map=m)))
+            clause, txt = ens_diff(ref, r)
+            res.violation(P + 'ensemble/result-depends-on-map' + clause,
+                          '%s: builtin vs %s: %s' % (tag, m, txt), jsonable(dict(spec, mode='solve', map=m)))
 
 
 def work_ens(spec):
@@ -400,13 +473,13 @@ def work_ens(spec):
 
 # ----------------------------------------------------------------------------- driver
 def _work(spec):
-    return {'perm': work_perm, 'de2map': work_de2, 'ens': work_ens}[spec['kind']](spec)
+    return {'perm': work_perm, 'de2map': work_de2, 'ens': work_ens, 'ens2': work_ens}[spec['kind']](spec)
 
 
 def run(tier='quick', seed=0):
     quick = tier == 'quick'
     n_perm, sizes = (18, [2, 3, 4, 5, 5, 5]) if quick else (150, [1, 2, 3, 4, 5, 5, 5])
-    n_de2, n_ens = (160, 160) if quick else (3000, 3000)
+    n_de2, n_ens, n_ens2 = (160, 160, 120) if quick else (3000, 3000, 1500)
     res = Result(
         rule='(i) seeded subsets of <= 5 distinct Set* calls x ALL their permutations per solver type (DE1, DE2, NM, '
              'Powell), trajectory over <= 10 Steps compared == with the sorted order; (ii) seeded DE2 settings, builtin '
@@ -417,9 +490,10 @@ def run(tier='quick', seed=0):
         bound='%d call sets per solver type (all permutations each), %d DE2 scenarios x 4 maps, %d ensemble scenarios '
               'x 3 modes x 4 maps%s; dims 1-4, <= 10 steps (i), <= 30 generations (ii), <= 60 generations/member (iii)'
               % (n_perm, n_de2, n_ens, '' if quick else ', process-pool map on 40 DE2 + 40 ensemble scenarios'))
-    specs = gen_perm_specs(seed, n_perm, sizes) + gen_de2_specs(seed, n_de2) + gen_ens_specs(seed, n_ens)
+    specs = gen_perm_specs(seed, n_perm, sizes) + gen_de2_specs(seed, n_de2) + gen_ens_specs(seed, n_ens) + \
+        gen_ens2_specs(seed, n_ens2)
     specs.sort(key=lambda sp: -math.factorial(len(sp['calls'])) if sp['kind'] == 'perm' else 0)
-    for kind in ('perm', 'de2map', 'ens'):
+    for kind in ('perm', 'de2map', 'ens', 'ens2'):
         res.samples.append(jsonable([sp for sp in specs if sp['kind'] == kind][0]))
     for part in pmap(_work, specs):
         res.merge(part)
